@@ -1348,6 +1348,14 @@ func (un *Unit) applySpecFn(sf *SpecFn, e *ECall, sc *Scope) SV {
 			pt, ps, _ := sc.resolveType(sf.Params[i].Type)
 			a = un.litAs(a, SV{typ: pt, sort: ps})
 		}
+		if a.sort == "nil" {
+			// nil for a pointer-like parameter is the null reference
+			pt, ps, _ := sc.resolveType(sf.Params[i].Type)
+			if ps != "Int" {
+				return sc.fail("spec fn %s: nil argument for parameter %s of sort %s is not supported", sf.Name, sf.Params[i].Name, ps)
+			}
+			a = SV{t: "0", typ: pt, sort: ps}
+		}
 		args = append(args, a)
 	}
 	if sf.E != nil {
